@@ -459,12 +459,14 @@ def run(ctx):
     from ..core import borrow
     from . import c14
     borrow(ctx, "C08", c14.rule_dispatch, tu)
+    # shared clause: however the loop is driven, iterations requested past completion change nothing (C10.STICKY)
+    borrow(ctx, "C08", c10.rule_sticky, tu, eff)
     rule_init_all(ctx, tu, eff)
     rule_slice(ctx, tu)
     rule_py_seed(ctx, py)
     rule_py_pure(ctx, py)
     rule_euler(ctx, tu, eff)
     from .. import lints
-    lints.run(ctx, "C08", ctx.py, ["rdscript", "simulate", "librdengine"], truth_floor=10)
+    lints.run(ctx, "C08", ctx.py, ["rdscript", "simulate", "librdengine", "rdsystem", "engine_collection"], truth_floor=10)
     ctx.assume("bit-identity across compilers / libm versions is not decided (same binary assumed); the sharing of the "
                "global simulation between engine objects is C10.ISOLATION")
